@@ -142,6 +142,7 @@ func main() {
 	var nontrivial lib.DistinctCounter
 	statusCount := map[string]int{}
 	perRoute := map[string]map[string]int{}
+	perSource := map[string]map[string]int{}
 	errKinds := map[string]int{}
 	leakCells := map[string]int{}
 	crashes := map[string]int{}
@@ -157,6 +158,14 @@ func main() {
 			perRoute[t.route.name] = pr
 		}
 		pr[v.status]++
+		if t.src != nil {
+			ps := perSource[t.src.name]
+			if ps == nil {
+				ps = map[string]int{}
+				perSource[t.src.name] = ps
+			}
+			ps[v.status]++
+		}
 		if dumping {
 			dumpLines = append(dumpLines, fmt.Sprintf("%09d\t%s\t%s\t%s\t%s", t.id, v.status, t.key(), t.shapeLit, v.detail))
 		}
@@ -234,6 +243,7 @@ func main() {
 	e.Extra("cases_generated", len(cases))
 	e.Extra("status_counts", statusCount)
 	e.Extra("per_route", perRoute)
+	e.Extra("per_source_second_hop", perSource)
 	e.Extra("violating_cells", len(leakCells))
 	e.Extra("violating_cell_counts", topN(leakCells, 400))
 	e.Extra("script_errors_by_kind", topN(errKinds, 40))
